@@ -68,6 +68,14 @@ def generate(rng, tier):
             k2 = bytearray(K); k2[i] ^= d
             pw(bytes(k2), "pair-one-byte-differs")
     for _ in range(20): pw(rbytes(rng, 40), "pair-unrelated")
+    # keys that differ in two (or more) places by the same amount, one machine word (2/4/8/16 bytes) apart, halves
+    # swapped, reversed: a comparison done on words or with folded differences must still see them as different
+    for w in (1, 2, 4, 8, 16, 20):
+        for i in range(0, 40 - w, 3):
+            for d in (1, 0x80, rng.randint(1, 255)):
+                k2 = bytearray(K); k2[i] ^= d; k2[i + w] ^= d
+                pw(bytes(k2), "pair-same-delta-two-places")
+    pw(K[20:] + K[:20], "pair-halves-swapped"); pw(K[::-1], "pair-reversed"); pw(K[8:] + K[:8], "pair-rotated")
     # two real threads
     for exp, role in (("v", "s"), ("t", "s"), ("w", "s"), ("w", "c")):
         for _ in range(10 if tier == "quick" else 250):
